@@ -654,3 +654,61 @@ def deep_calls(ctx, b):
     for body in closure_tree(ctx, b):
         for i, t in body.calls():
             yield body, i, t
+
+
+def capture_operand(ctx, cb, upvar_root):
+    """(enclosing body, operand) the enclosing function stored into the capture a closure reads
+    through `upvar_root` (a ("upvar", json-projection) provenance root), or None"""
+    import json
+    enc = ctx.prog.bodies.get(cb.encl) if cb.encl else None
+    if enc is None:
+        return None
+    try:
+        pr = json.loads(upvar_root[1])
+    except Exception:
+        return None
+    ui = None
+    for e in pr:
+        if isinstance(e, dict) and "f" in e:
+            try:
+                ui = int(e["f"])
+            except ValueError:
+                ui = None
+            break
+    if ui is None:
+        return None
+    for bb in enc.bbs:
+        for st in bb["s"]:
+            if st["k"] == "=" and st["r"]["k"] == "agg" and st["r"]["a"] == "closure:" + cb.fn and ui < len(st["r"]["o"]):
+                return enc, st["r"]["o"][ui]
+    return None
+
+
+def exec_sites(ctx, he, targets):
+    """where `he` executes one of `targets`: [(body, block in body, block in he)] -- a direct call,
+    or a call inside a closure that an iterator chain in `he` drives; for those the block in `he`
+    is the call that consumes the chain (collect / for_each / ...), i.e. when the closure runs"""
+    out = []
+    for i, t in he.calls():
+        if callee(t) in targets:
+            out.append((he, i, i))
+    seen = set()
+    for i, t in he.calls():
+        for c in t.get("clos") or []:
+            if c in seen:
+                continue
+            cb = ctx.prog.bodies.get(c)
+            if cb is None:
+                continue
+            inner = [(body, j) for body in closure_tree(ctx, cb) for j, tj in body.calls() if callee(tj) in targets]
+            if not inner:
+                continue
+            seen.add(c)
+            users = [x for x, tx in he.calls() if c in (tx.get("clos") or [])]
+            consumer = users[0]
+            for x in users:
+                if all(cfg.dominates(he, y, x) for y in users):
+                    consumer = x
+            for body, j in inner:
+                out.append((body, j, consumer))
+    return out
